@@ -138,6 +138,8 @@ class VM:
         self.query_timeout_ms = 10000
         self.incremental_timeout_ms = 1500
         self.n_fresh = 0
+        self.n_cvc5 = 0
+        self.cvc5_fallback = False     # job option: ask cvc5 where z3 answers unknown twice
         self.fork_ctl = None          # symvm.forkctl.ForkCtl: fork at two-sided branches instead of re-executing
         self.on_fork_child = None
         self.fork_collect = None
@@ -225,7 +227,7 @@ class VM:
                 on_path(self, PathRec(r, self.decisions, self.unproven, n))
         summary = dict(paths=paths, outcomes=outcomes, wall=time.time() - t0, exhausted=self.root.done,
                        queries=self.nq, solver_s=self.tq, decisions=self.total_decisions, stop=stop,
-                       infeasible_unproven=infeasible, unknown_queries=self.n_unknown)
+                       infeasible_unproven=infeasible, unknown_queries=self.n_unknown, cvc5_queries=self.n_cvc5)
         if self.fork_ctl is not None and self.fork_ctl.is_child:
             self.fork_ctl.child_exit(self.fork_collect(summary) if self.fork_collect else summary)   # does not return
         return summary
@@ -258,6 +260,11 @@ class VM:
             # second opinion from a fresh non-incremental solver (different strategy inside z3)
             r, m = z3.check_fresh(list(self.pc) + [extra], full, want_model)
             self.n_fresh += 1
+            if r == z3.unknown and self.cvc5_fallback:
+                # third opinion: the identical SMT-LIB2 text decided by cvc5 (a sat answer is only used through its model,
+                # which the VM re-evaluates and the native replay confirms; an unsat answer prunes the branch)
+                r, m = z3.check_cvc5(list(self.pc) + [extra], full, want_model)
+                self.n_cvc5 += 1
         self.nq += 1
         self.tq += time.time() - t
         if r == z3.unknown:
@@ -375,7 +382,7 @@ class VM:
                             if kid is not None and kid is not a:
                                 kid.done = True
                         a = a.parent
-                    self.nq, self.tq, self.total_decisions, self.n_unknown = 0, 0.0, 0, 0
+                    self.nq, self.tq, self.total_decisions, self.n_unknown, self.n_cvc5 = 0, 0.0, 0, 0, 0
                     self.fork_paths = 0
                     if self.on_fork_child:
                         self.on_fork_child()
